@@ -49,7 +49,7 @@ PROBES = ["waiter_parked_on_thread_lock_during_swap", "two_first_starts_racing",
           "query_while_other_task_waits", "fork", "spawn", "screen_redraw_step",
           "reply_later_than_timeout", "stale_reply_waiting_in_queue", "foreign_reply_seen_by_query",
           "first_start_with_queries_disabled", "no_active_terminal",
-          "process_lock_creation_failed", "synchronized_call_raised"]
+          "process_lock_creation_failed", "synchronized_call_raised", "screen_write_step"]
 COMPONENTS = {
     "real": ["term_image.utils.lock_tty / query_terminal / read_tty / write_tty / get_cell_size",
              "_process_start_wrapper / _process_run_wrapper and the import-time Process patching "
@@ -125,6 +125,7 @@ def gen_program(ch, depth, budget, mode="getters"):
             kinds += [(2, "colors"), (1, "namever")]
         elif depth == 0:
             kinds.append((3, "screen"))
+            kinds.append((2, "screen_write"))
         if depth < 2 and budget[0] > 0:
             kinds.append((4, "start"))
         kind = ch.weighted("step", kinds)
@@ -375,6 +376,12 @@ def run(ch, ctx, fault=None):
                     canvas = top.render((80, 24), focus=True)
                     ctx.probe("screen_redraw_step")
                     screen.draw_screen((80, 24), canvas)
+                elif kind == "screen_write":
+                    # another thread writes through the same screen object (a status line, a
+                    # bell, clear_images(), ...)
+                    ctx.probe("screen_write_step")
+                    screen.write("\x1b[0m")
+                    screen.flush()
                 elif kind in ("colors", "namever"):
                     # first (uncached) call of a memoized getter: query + DA1 tail drain.
                     # Top-level only, so memo lock -> tty lock is the only order in play.
